@@ -393,6 +393,48 @@ def corr_spec(ctx, pool, name):
     ctx.coq_cases(name, base.HEADER, cases, shard=1, label="spec_partition_pools")
 
 
+HEADER_ALIKE = base.HEADER + "\nFrom DD Require Import Hash.HashAlike Hash.HashAlikeShow."
+MODES4 = base.MODES4
+
+
+def distinct_item_hashes(v, o):
+    """the input-level K4 guard (norep) as observed on the implementation: no list / tuple inside v holds two items
+    that DeepHash gives the same hash (each item hashed on a fresh table)"""
+    if isinstance(v, (list, tuple)):
+        hs = [impl_hash(x, o)[0] for x in v]
+        return len(set(hs)) == len(hs) and all(distinct_item_hashes(x, o) for x in v)
+    if isinstance(v, dict):
+        return all(distinct_item_hashes(x, o) for x in v.values())
+    return True
+
+
+def corr_alike(ctx, pool, name):
+    """C07_hash_alike_exact observed on the implementation: over the tag-safe, alias-free part of the pool (no other
+    guard: repeated items, sets of any size, all FOUR (ignore_repetition, ignore_iterable_order) combinations), the
+    partition by the default SHA-256 hash == the partition by the decidable relation heqb computed in Coq; and the
+    input-level guard norep (Coq) == 'no list/tuple holds two items with the same DeepHash' (implementation)"""
+    vs = [v for v in pool if base.tag_safe_py(v) and not values.contains_alias(v) and not spells_digest(v)]
+    cases, guards = [], []
+    body = ";\n ".join(values.to_coq(v) for v in vs)
+    for o in MODES4:
+        hs = [impl_hash(v, o)[0] for v in vs]
+        cs = base.classes_of(hs)
+        cases.append(("run_classes_alike %s [%s]" % (base.coq_opts(o), body), cs,
+                      {"pool_tag_safe_alias_free": len(vs), "opts": list(o), "check": "sha256 classes == heqb classes"}))
+        n = len(vs)
+        ctx.count("alike:pairs:%s" % MODE_NAME[o], n * (n - 1) // 2)
+        ctx.count("alike:classes:%s" % MODE_NAME[o], len(set(cs)))
+        ctx.evaluations += n * (n - 1) // 2
+    o = ORDERED_MODE
+    nr = [distinct_item_hashes(v, o) for v in vs]
+    ctx.count("alike:norep:in", sum(nr))
+    ctx.count("alike:norep:out", len(nr) - sum(nr))
+    guards.append(("run_norep %s [%s]" % (base.coq_opts(o), body), nr,
+                   {"pool": len(vs), "check": "norep (Coq, input level) == pairwise distinct item hashes (implementation)"}))
+    ctx.coq_cases(name, HEADER_ALIKE, cases, shard=1, label="exact_relation_heqb_partition_pools")
+    ctx.coq_cases(name + "_norep", HEADER_ALIKE, guards, shard=1, label="norep_guard_pools")
+
+
 # ---- lazily built iterables, shared tables with temporaries (identity re-use), oracle only ----------------
 
 class Rows:
@@ -513,7 +555,38 @@ def surrogate_pool():
          [f1, "readme.md"], [f2, "readme.md"], ["report-?.txt", "readme.md"],
          {"name": f1, "size": 3}, {"name": f2, "size": 3}, {f1: 1}, {f2: 1}, {"report-?.txt": 1},
          (s1, s1, "x"), (s1, s2, "x"), (s2, s2, "x"), ("caf?", "caf?", "x"), {s1}, {s2}, {"caf?"}, [s1], [s2], [[s1]], [[s2]]]
+    # what the other codec error handlers would turn a lone surrogate into (a hasher that encodes with one of them
+    # instead of refusing maps the surrogate string onto one of these ordinary strings)
+    P += ["caf\\ud800", "caf&#55296;", "caf\\udcc3\\udca9", "\\ud800", "&#55296;", ["caf\\ud800"], {"caf\\ud800": 1}]
+    # escape surrogates U+DC80..U+DCFF (what os.fsdecode / sys.argv / os.listdir produce for undecodable bytes): the
+    # escaped form of the UTF-8 bytes of a non-ASCII string, the string itself, and mixed forms (only some of the
+    # non-ASCII characters escaped) - as leaves, list / tuple items, dict keys and values, set members, repeated items
+    for s in SURROGATE_ESCAPE_SAMPLES:
+        forms = [s] + escaped_forms(s)
+        P += forms
+        for f in forms:
+            P += [[f, 1], [[f]], (f, "x"), {f: 1}, {"name": f}, {f}, frozenset([f, "y"])]
+        e = forms[1]
+        P += [[s, s, e], [s, e, e], [e, s], {s: e}, {e: s}, {s, "z"}, {e, "z"}]
+    # escaped bytes that do NOT spell valid UTF-8 have no ordinary string to collide with, only each other
+    P += ["\udcff", "\udcfe", "\udc80", "a\udc80", "\udcc3", "\udcc3\udc28", ["\udcff"], {"\udcff": 1}]
     return P
+
+
+SURROGATE_ESCAPE_SAMPLES = ["caf\xe9", "€", "\xe9", "na\xefve caf\xe9", "\U0001d1c0", "\xff", "r\xe9sum\xe9.txt", "Жз"]
+
+
+def escaped_forms(s):
+    """the strings that encode to the same bytes as s under errors='surrogateescape': every non-ASCII UTF-8 byte as
+    chr(0xDC00 + byte) (all of them / only those of the first / only those of the last non-ASCII character)"""
+    def esc(ch):
+        return "".join(chr(0xDC00 + b) for b in ch.encode("utf-8"))
+    idx = [i for i, ch in enumerate(s) if ord(ch) >= 128]
+    out = ["".join(esc(ch) if ord(ch) >= 128 else ch for ch in s)]
+    if len(idx) > 1:
+        out.append("".join(esc(ch) if i == idx[0] else ch for i, ch in enumerate(s)))
+        out.append("".join(esc(ch) if i == idx[-1] else ch for i, ch in enumerate(s)))
+    return out
 
 
 def oracle_surrogates(ctx):
@@ -576,6 +649,7 @@ def run(ctx):
     # (strings that spell a serialisation containing a SHA-256 digest collide under SHA-256 only: hasher-specific, left to the oracle)
     base.corr_pattern(ctx, [v for v in pool if not spells_digest(v)], MODES3, "c07_pattern")
     corr_spec(ctx, pool, "c07_spec")
+    corr_alike(ctx, pool, "c07_alike")
     # direct oracle: all pairs, three modes, both hashers
     for o in MODES3:
         oracle_pool(ctx, pool, o, None, "sha256")
